@@ -644,6 +644,23 @@ func WellformedType(ctx map[ast.Variable]ast.BaseTerm, expr ast.BaseTerm) error 
 					return fmt.Errorf("in a struct type expression %v : %w", expr, err)
 				}
 			}
+			optionalArgs, err := StructTypeOptionaArgs(expr)
+			if err != nil {
+				return err
+			}
+			for _, opt := range optionalArgs {
+				// An optional field is fn:opt(/name, Type); conformance checking indexes both arguments.
+				optApply, ok := opt.(ast.ApplyFn)
+				if !ok || len(optApply.Args) != 2 {
+					return fmt.Errorf("in a struct type expression, an optional field must have a name and a type, got %v in %v ", opt, expr)
+				}
+				if c, ok := optApply.Args[0].(ast.Constant); !ok || c.Type != ast.NameType {
+					return fmt.Errorf("in a struct type expression, an optional field must be named by a name constant, got %v in %v ", opt, expr)
+				}
+				if err := WellformedType(ctx, optApply.Args[1]); err != nil {
+					return fmt.Errorf("in a struct type expression %v : %w", expr, err)
+				}
+			}
 			return nil
 		}
 		if fn == TaggedUnionType {
